@@ -32,6 +32,7 @@ func runC13(w *World) *Result {
 	c13Rec(w, r)
 	c13Result(w, r)
 	c13Progress(w, r)
+	RecCycleRule(w, r, "R-C13-rec")
 	return r
 }
 
@@ -2147,6 +2148,7 @@ func c13Progress(w *World, r *Result) {
 		}
 	}
 	r.Analysed["progressing_parser_functions"] = len(prog)
+	progFns = prog
 	if os.Getenv("VERIF_DEBUG") != "" {
 		for _, fn := range fns {
 			if !prog[fn] {
